@@ -40,7 +40,30 @@ sampled, reported under sampled_levels).  Model correspondence in (a-lib): a lib
 model's `h x` (handle on the caller's current runtime) with the fixed handler 0 for its request type, so the
 committed steps run through the same Lean model (drv_runtime sched) as in (a); of the three request types
 cache.disabled() handles only CacheExistsRequest is observed, and "the log request did not reach the python
-logger" has no model counterpart - both are judged by the solo-run oracle only; (b) concurrent Overloaded.register / Dataset.register; (c) concurrent
+logger" has no model counterpart - both are judged by the solo-run oracle only; (a-first) WHO starts from WHAT:
+in (a) and (a-lib) every scheduled thread is a spawned worker and the process's main thread only orchestrates (it runs
+the setup, unscheduled, and is outside any block while the workers run).  In (a-first) the MAIN thread - the real
+threading.main_thread() of the runner process, the thread that drives the scenario; model thread 0 - runs a program of
+its own (scn["main"]) as one more participant of the scheduler (go() runs it, traced and preempted like a worker), and
+threads that have NEVER touched the runtime (no entry in the thread -> runtime table) make their first request.run() /
+handle() / current_runtime() / inherit() / Runtime.__enter__ / logging.disabled() call before the main thread entered
+a context, while it is inside one or two nested ones (own handle() blocks, Runtime objects of the setup also entered by
+workers, logging.disabled() + cache.disabled()), and after it left - and go on afterwards (a context entered by another
+thread must not stick either).  Who the fresh threads are: workers started by the orchestration before the schedule
+begins (as in (a)); Thread objects STARTED INSIDE the scenario by a ["S", t] step of the main thread inside its block,
+of a worker inside its own block, of a worker that inherited; "pool-style" workers whose tasks are separated by
+["wait", e] steps (events known to the scheduler: a waiting thread is not enabled, ["set", e] enables it - the phases
+before / inside / after are forced in EVERY schedule of these scenarios, the schedules vary the rest); and, in one
+strictly sequential scenario without the scheduler, the threads of real concurrent.futures.ThreadPoolExecutor
+(max_workers=1) pools, each reused for three tasks submitted by the main thread before / inside / after its blocks.
+Eight directed scenarios always run (quick tier too), the seed adds random programs (quick 1, thorough 4: random first
+call per worker, main in one or two blocks, the last worker possibly started from inside by main or by a worker).
+Oracle as in (a), now for every thread whatever it is: a thread that did not call inherit() - the main thread
+included - observes what its own program observes run alone (the process-wide defaults and its own contexts, never a
+context of another thread, main or not, whenever it was entered); a thread that called inherit() observes the
+handlers the named parent had at the step inherit committed; plus the Lean model (drv_runtime sched) on the committed
+steps of all threads, thread 0 included ("<t> S <u>" is no model step and is left out).  Exploration: reservoirs per
+number of preemptions as in (a-lib); (b) concurrent Overloaded.register / Dataset.register; (c) concurrent
 evaluations of one cached dataset with different / equal options; (d) the same for cached datasets
 whose dependency graph contains a USER-BUILT node, defined outside dataset.py / cache.py and hence one
 object shared by every thread: WithOptions / WithDefaultOptions (around an option, a section, a cached
@@ -63,7 +86,7 @@ point while the others run to completion; for either starting order where the th
 things) are run whenever a depth has at most caps[1] of them - with the quick caps that is every
 two-thread scenario at line level and the lighter ones at opcode level; larger levels are sampled and
 reported under sampled_levels - independent of how many two-preemption schedules there are.
-Oracles on the implementation: (a), (a-lib) every thread's observations equal those of its own program run
+Oracles on the implementation: (a), (a-lib), (a-first) every thread's observations equal those of its own program run
 alone (threads that inherit: the handlers the parent had at the step inherit committed), computed by
 a small independent interpreter over the observed order of atomic steps; (b) every registered key is
 present afterwards; (c) every evaluation returns the value of its own options; (d) as (c), the value of
@@ -97,7 +120,10 @@ SPEC = PropSpec(
     trusted_base=[
         "atomicity of the `with lock:` bodies and of single dict operations (GIL) is the model's step granularity; "
         "the schedule exploration checks it up to the preemption bound, it is not proved",
-        "the deterministic scheduler (sys.settrace + semaphores) in harness/props/C15.py and lean/DrvRuntime.lean (unverified glue)",
+        "the deterministic scheduler (sys.settrace + semaphores) in harness/props/C15.py and lean/DrvRuntime.lean (unverified glue); "
+        "in the first-call scenarios (a-first) the process's main thread is one of the scheduled participants, threads started "
+        "inside a scenario block on their semaphore before they run any labrea code, and event waits are scheduler states "
+        "(nobody blocks for real); the ThreadPoolExecutor scenario is strictly sequential (submit, wait for the result)",
         "CPython 3.12 trace events: a thread can only be preempted at the explored yield points "
         "(line / shared-memory opcode boundaries inside labrea/{runtime,overload,cache,dataset}.py, lock boundaries; "
         "in the library-context-manager scenarios (a-lib): lines / shared-memory opcodes of labrea/{runtime,logging,cache}.py, "
@@ -116,6 +142,9 @@ SPEC = PropSpec(
         "(a-lib): a library context manager (logging.disabled, cache.disabled) corresponds to the model's handle-on-the-current-"
         "runtime with a fixed handler (tag 0) for its request type; the defaults of LogRequest / CacheExistsRequest are replaced "
         "by tags while a scenario runs and restored afterwards",
+        "(a-first): which thread STARTED a thread is not a step of the model (the library keeps no parent link; only inherit(thread) "
+        "names one); a thread without a runtime starts from the process-wide default handlers, whoever started it and whatever "
+        "the main thread has entered",
         "(d): the expected value of a thread is what its evaluation returns when run alone on a fresh graph (sequential "
         "semantics are the other properties' business); option dictionaries are distinct objects per thread and not mutated",
     ],
@@ -188,8 +217,22 @@ class LibraryDefaultHandlerRan(Exception):
 MISSING = object()
 SCHED = None
 
+class Ev:
+    """an event of a thread program (["set", e] / ["wait", e]): a thread that waits for it is not enabled until it
+    is set - the scheduler knows (Sched.enabled), nobody blocks for real"""
+    def __init__(self):
+        self.owner = "unset"
+
+
 class Sched:
-    def __init__(self, n, preempts, gran):
+    def __init__(self, n, preempts, gran, unstarted=(), main_index=None):
+        # participants 0 .. n-1; `unstarted`: workers whose Thread object is started by a ["S", t] step of another
+        # participant (not enabled before that); main_index: the participant that is the process's MAIN thread (it
+        # runs its program inside go(), scheduled like the others), None when the main thread only orchestrates
+        self.started = [i not in unstarted for i in range(n)]
+        self.registered = [False] * n
+        self.main_index = main_index
+        self.main_body = None
         self.n = n
         self.preempts = preempts
         self.gran = gran
@@ -228,7 +271,7 @@ class Sched:
             raise InfraError(self.error)
 
     def enabled(self):
-        return [t for t in range(self.n) if not self.finished[t]
+        return [t for t in range(self.n) if self.started[t] and not self.finished[t]
                 and (self.blocked[t] is None or self.blocked[t].owner is None)]
 
     def pick(self, me, en):
@@ -377,15 +420,18 @@ def make_tracer(s, me):
     return glob
 
 
-def run_threads(n, preempts, gran, bodies):
-    """bodies[i](sched, i) is the program of worker i; returns the Sched"""
+def run_threads(n, preempts, gran, bodies, main_body=None, unstarted=()):
+    """bodies[i](sched, i) is the program of worker i; main_body(sched, n), if given, is the program the MAIN thread
+    runs as participant n; returns the Sched"""
     global SCHED
-    s = Sched(n, preempts, gran)
+    s = Sched(n + (1 if main_body is not None else 0), preempts, gran, unstarted, n if main_body is not None else None)
+    s.main_body = main_body
     SCHED = s
     errors = []
 
     def wrap(i):
         s.ident[_thread.get_ident()] = i
+        s.registered[i] = True
         try:
             s.wait(i)
             if gran in ("line", "opcode"):
@@ -400,29 +446,52 @@ def run_threads(n, preempts, gran, bodies):
         except BaseException as e:
             errors.append("worker %d crashed: %s: %s" % (i, type(e).__name__, e))
             s.error = s.error or errors[-1]
-            try:
-                s.done.release()
-            except RuntimeError:
-                pass
+            for l in [s.done] + ([s.sems[s.main_index]] if s.main_index is not None else []):
+                try:
+                    l.release()
+                except RuntimeError:
+                    pass
 
     ths = [threading.Thread(target=wrap, args=(i,), daemon=True) for i in range(n)]
     s.threads = ths
     return s, ths
 
 
-def go(s, ths):
-    for th in ths:
-        th.start()
-    # wait until all have registered their ident (they block on their semaphore right away)
+def await_registered(s, idx):
+    """wait until the started workers idx have registered their ident (they block on their semaphore right away)"""
     t0 = time.time()
-    while len(s.ident) < s.n:
+    while not all(s.registered[i] for i in idx):
         if time.time() - t0 > WAIT:
-            raise InfraError("workers did not start")
+            s.fail("workers did not start")
         time.sleep(0)
+
+
+def go(s, ths):
+    for i, th in enumerate(ths):
+        if s.started[i]:
+            th.start()
+    await_registered(s, [i for i in range(len(ths)) if s.started[i]])
+    mi = s.main_index
+    if mi is not None:
+        s.ident[_thread.get_ident()] = mi
+        s.registered[mi] = True
     en = s.enabled()
     first = s.pick(None, en)
     s.current = first
-    s.sems[first].release()
+    if mi is None:
+        s.sems[first].release()
+    else:
+        # the main thread is a participant: it runs its program here, handing over at yield points like a worker
+        if first != mi:
+            s.sems[first].release()
+            s.wait(mi)
+        if s.gran in ("line", "opcode"):
+            sys.settrace(make_tracer(s, mi))
+        try:
+            s.main_body(s, mi)
+        finally:
+            sys.settrace(None)
+        s.finish(mi)
     if not s.done.acquire(True, 3 * WAIT):
         raise InfraError("execution did not finish in time")
     if s.error is not None:
@@ -435,6 +504,21 @@ def go(s, ths):
 
 # ------------------------------------------------------------------ scenario (a): handler contexts
 
+def spawned_threads(scn):
+    """scheduler indices of the workers that are started by a ["S", t] step of a thread program"""
+    out = set()
+
+    def walk(items):
+        for it in items:
+            if it[0] == "S":
+                out.add(it[1] - 1)
+            for sub in ((it[2],) if it[0] == "W" else (it[1],) if it[0] in ("Y", "task") else ()):
+                walk(sub)
+    for prog in [scn.get("main", [])] + list(scn["threads"]):
+        walk(prog)
+    return out
+
+
 class CtxRun:
     def __init__(self, scn, serial):
         self.scn = scn
@@ -444,6 +528,10 @@ class CtxRun:
         self.keep = []
         self.logs = {}
         self.thobj = {}
+        self.events = {}
+        self.sync_tid = {}
+        self.pools = {}
+        self.next_task = {}
 
     def ty(self, k):
         if k in LIB_TYPES:
@@ -535,6 +623,44 @@ class CtxRun:
                     log.append(("@", o))
                 elif k == "^":
                     raise Boom()
+                elif k == "S":
+                    # ["S", t]: the calling thread STARTS the Thread object of model thread t (a thread that has never
+                    # touched the runtime); it blocks on its semaphore right away and is enabled from here on.  Not a
+                    # step of the model: logged as "<t> S <u>" for the reader and the coverage counts, filtered out
+                    # before the committed steps go to the Lean model
+                    self.op(s, me, "S %d" % it[1])
+                    j = it[1] - 1
+                    s.threads[j].start()
+                    await_registered(s, [j])
+                    s.started[j] = True
+                elif k == "set":
+                    self.events.setdefault(it[1], Ev()).owner = None
+                    continue
+                elif k == "wait":
+                    ev = self.events.setdefault(it[1], Ev())
+                    while ev.owner is not None:
+                        s.yield_point(me, blocked_on=ev)
+                    s.blocked[me] = None
+                    continue
+                elif k == "T":
+                    # ["T", w] (pool scenarios, unscheduled): the calling thread submits the next task of pool worker w
+                    # (model thread w, a concurrent.futures.ThreadPoolExecutor(max_workers=1) of its own, i.e. ONE real
+                    # pool thread reused for all of w's tasks) and waits for its result
+                    task = self.scn["threads"][it[1] - 1][self.next_task.get(it[1], 0)][1]
+                    self.next_task[it[1]] = self.next_task.get(it[1], 0) + 1
+                    if it[1] not in self.pools:
+                        self.pools[it[1]] = __import__("concurrent.futures").futures.ThreadPoolExecutor(max_workers=1)
+
+                    def runtask(w=it[1], task=task):
+                        self.sync_tid[_thread.get_ident()] = w
+                        if self.thobj.setdefault(w, threading.current_thread()) is not threading.current_thread():
+                            raise InfraError("pool worker %d is not one reused thread" % w)
+                        try:
+                            self.items(None, None, w, task)
+                        except Boom:
+                            self.logs[w].append("!")
+                    self.pools[it[1]].submit(runtask).result(WAIT)
+                    continue
                 elif k == "W":
                     r = self.vars[it[1]]
                     self.op(s, me, "e %d" % it[1])
@@ -573,7 +699,8 @@ class CtxRun:
         if s is not None:
             s.begin_op(me, "%d %s" % (self.tid_of[me], label))
         else:
-            self.setup_commits.append("0 " + label)
+            # unscheduled: the setup (main thread, model thread 0) and the strictly sequential pool scenarios
+            self.setup_commits.append("%d %s" % (self.sync_tid.get(_thread.get_ident(), 0), label))
 
     def endop(self, s, me):
         if s is not None:
@@ -584,6 +711,9 @@ class CtxRun:
         progs = scn["threads"]
         n = len(progs)
         self.tid_of = {i: i + 1 for i in range(n)}
+        self.tid_of[n] = 0          # participant n, if there is one, is the main thread (scn["main"])
+        if threading.current_thread() is not threading.main_thread():
+            raise InfraError("the scenario is not driven by the process's main thread")
         RT._RUNTIMES.pop(threading.main_thread(), None)
         self.setup_commits = []
         self.logs = {t: [] for t in range(n + 1)}
@@ -601,16 +731,34 @@ class CtxRun:
                 except Boom:
                     self.logs[i + 1].append("!")
             return f
-        s, ths = run_threads(n, preempts, gran, [body(i) for i in range(n)])
-        for i, th in enumerate(ths):
-            self.thobj[i + 1] = th
-        go(s, ths)
+
+        def main_body(s, me):
+            try:
+                self.items(s, me, 0, scn["main"])
+            except Boom:
+                self.logs[0].append("!")
+        if scn.get("pool"):
+            # strictly sequential: the main thread runs scn["main"] unscheduled, every ["T", w] runs the next task of
+            # threads[w-1] in w's real pool thread and waits for it; the order of steps is the program order
+            s = Sched(0, {}, gran)
+            try:
+                main_body(None, None)
+            finally:
+                for pool in self.pools.values():
+                    pool.shutdown(wait=True)
+            if sorted(self.thobj) != list(range(n + 1)) or any(self.next_task.get(w + 1, 0) != len(progs[w]) for w in range(n)):
+                raise InfraError("pool scenario: not every task of every pool worker was submitted")
+        else:
+            s, ths = run_threads(n, preempts, gran, [body(i) for i in range(n)], main_body if "main" in scn else None,
+                                 spawned_threads(scn))
+            for i, th in enumerate(ths):
+                self.thobj[i + 1] = th
+            go(s, ths)
         for t in range(n + 1):
             o = RT._RUNTIMES.get(self.thobj[t], MISSING)
             self.logs[t].append(("F=", o))
-        for th in ths:
+        for th in self.thobj.values():
             RT._RUNTIMES.pop(th, None)
-        RT._RUNTIMES.pop(threading.main_thread(), None)
         for cls in self.types.values():
             RT._DEFAULT_HANDLERS.pop(cls, None)
         for cls, h in LIB_DEFAULTS.items():
@@ -1072,7 +1220,7 @@ def explore(job):
         for _ in range(phase.get("random", 0)):
             m = rng.randint(bound + 1, bound + 3)
             top = max(stats["max_yield_points"], 4)
-            pre = {rng.randrange(top): rng.randrange(len(scn["threads"])) for _ in range(m)}
+            pre = {rng.randrange(top): rng.randrange(len(scn["threads"]) + (1 if "main" in scn else 0)) for _ in range(m)}
             run(pre, gran, m)
             lv = "%s/random" % gran
             stats["by_level"][lv] = stats["by_level"].get(lv, 0) + 1
@@ -1261,7 +1409,9 @@ def norm_anon(toks: List[str]) -> List[str]:
 
 
 def solo_expected(scn, i: int) -> List[List[str]]:
-    """thread i+1 run alone after the setup (threads that inherit are excluded by the caller)"""
+    """thread i+1 run alone after the setup (threads that inherit are excluded by the caller); i = -1: the main
+    thread, model thread 0, i.e. the setup followed by scn["main"].  Starting a thread, events and submitting a pool
+    task are no steps of the thread's own handler state; the tasks of a pool worker run one after the other"""
     ls = LinearSpec()
 
     def lin(t, items):
@@ -1281,6 +1431,13 @@ def solo_expected(scn, i: int) -> List[List[str]]:
                     pass
             elif k == "^":
                 raise _Boom()
+            elif k in ("S", "set", "wait", "T"):
+                pass
+            elif k == "task":
+                try:
+                    lin(t, it[1])
+                except _Boom:
+                    pass
             elif k in ("n", "h", "hm"):
                 ls.step(f"{t} {k[0]} {it[1]} {hs(it[2])}")
             elif k == "hd":
@@ -1291,7 +1448,7 @@ def solo_expected(scn, i: int) -> List[List[str]]:
                 ls.step(f"{t} d {it[1]} {it[2]} {hs(it[3])}")
             else:
                 ls.step(" ".join([str(t), k] + [str(x) for x in it[1:]]))
-    for t, items in ((0, scn.get("setup", [])), (i + 1, scn["threads"][i])):
+    for t, items in ((0, scn.get("setup", [])), (i + 1, scn["threads"][i] if i >= 0 else scn.get("main", []))):
         try:
             lin(t, items)
         except _Boom:
@@ -1314,7 +1471,7 @@ def uses_inherit(items) -> bool:
             return True
         if it[0] == "W" and uses_inherit(it[2]):
             return True
-        if it[0] == "Y" and uses_inherit(it[1]):
+        if it[0] in ("Y", "task") and uses_inherit(it[1]):
             return True
     return False
 
@@ -1330,10 +1487,43 @@ def helper_calls(items) -> Dict[str, int]:
     for it in items:
         if it[0] in HELPER_NAMES:
             out[HELPER_NAMES[it[0]]] = out.get(HELPER_NAMES[it[0]], 0) + 1
-        for sub in ((it[2],) if it[0] == "W" else (it[1],) if it[0] == "Y" else ()):
+        for sub in ((it[2],) if it[0] == "W" else (it[1],) if it[0] in ("Y", "task") else ()):
             for k, v in helper_calls(sub).items():
                 out[k] = out.get(k, 0) + v
     return out
+
+
+FIRST_CALLS = {"r": "request.run()", "h": "runtime.handle() / logging.disabled() / cache.disabled()", "c": "runtime.current_runtime()",
+               "i": "runtime.inherit(thread)", "e": "Runtime.__enter__", "d": "Runtime.handle on a runtime object"}
+
+
+def first_touch_stats(outcome, acc: Dict[str, Dict[str, int]]) -> None:
+    """(a-first) coverage, read off the committed steps of one distinct outcome: for every thread other than the main
+    thread, which library call was its FIRST one and where the main thread (model thread 0) was at that step; for
+    every thread started inside the scenario, who started it from where"""
+    depth: Dict[int, int] = {}
+    entered0 = False
+    touched = set()
+    for lab in outcome["commits"]:
+        tk = lab.split()
+        t, k = int(tk[0]), tk[1]
+        if k == "S":
+            who = "the main thread" if t == 0 else "a worker"
+            where = f"inside {depth.get(t, 0)} context(s)" if depth.get(t, 0) else "outside any context"
+            key = f"started by {who} {where}"
+            acc["threads_started_inside_the_scenario"][key] = acc["threads_started_inside_the_scenario"].get(key, 0) + 1
+            continue
+        if t != 0 and t not in touched and k in FIRST_CALLS:
+            touched.add(t)
+            d0 = depth.get(0, 0)
+            state = f"is inside {d0} context(s)" if d0 else ("has left its context(s)" if entered0 else "has not entered a context yet")
+            key = f"{FIRST_CALLS[k]} / the main thread {state}"
+            acc["first_call_of_a_thread_without_runtime"][key] = acc["first_call_of_a_thread_without_runtime"].get(key, 0) + 1
+        if k == "e":
+            depth[t] = depth.get(t, 0) + 1
+            entered0 = entered0 or t == 0
+        elif k == "x":
+            depth[t] = depth.get(t, 0) - 1
 
 
 def allowed_ok(got: List[str], spec: List[List[str]]) -> bool:
@@ -1355,19 +1545,21 @@ def judge_ctx(scn, outcome, model_line: Optional[str]) -> List[Tuple[str, str]]:
     except (KeyError, IndexError):
         spec_ok = False           # e.g. exit committed without matching enter: implementation went off the rails
         res.append(("failing-input", "handler contexts: the committed steps are not a well-nested history per thread"))
-    for t in range(1, n + 1):
+    # the main thread (model thread 0) is judged like the others when it runs a program of its own next to them
+    for t in ([0] if "main" in scn else []) + list(range(1, n + 1)):
         got = served_tokens(outcome["obs"][str(t)])
+        who = f"thread {t}" + (" (the main thread)" if t == 0 else "")
         if any(x.startswith("E:") for x in outcome["obs"][str(t)]):
-            res.append(("failing-input", f"handler contexts: thread {t} got an unexpected exception: {outcome['obs'][str(t)]}"))
+            res.append(("failing-input", f"handler contexts: {who} got an unexpected exception: {outcome['obs'][str(t)]}"))
             continue
-        if not uses_inherit(scn["threads"][t - 1]):
+        if not uses_inherit(scn["threads"][t - 1] if t else scn["main"]):
             solo = solo_expected(scn, t - 1)
             if not allowed_ok(got, solo):
-                res.append(("failing-input", f"handler contexts: thread {t} observed {got}; run alone it observes {show(solo)} "
+                res.append(("failing-input", f"handler contexts: {who} observed {got}; run alone it observes {show(solo)} "
                                              f"(another thread changed which handler serves it)"))
                 continue
         if spec_ok and not allowed_ok(got, ls.obs.get(t, [])):
-            res.append(("failing-input", f"handler contexts: thread {t} observed {got}; with inherit() reading the parent's "
+            res.append(("failing-input", f"handler contexts: {who} observed {got}; with inherit() reading the parent's "
                                          f"runtime at its step the thread-local specification gives {show(ls.obs.get(t, []))}"))
     if model_line is not None:
         per: Dict[str, List[str]] = {str(t): [] for t in range(n + 1)}
@@ -1459,7 +1651,8 @@ def model_lines(scn, outcomes: List[Dict[str, Any]]) -> List[str]:
         return run_driver("drv_runtime", [" ".join([str(len(o["fps"]))] + [str(f) for f in o["fps"]] + ["|"] + [str(t) for t in o["dictops"]])
                                           for o in outcomes], args=["cache"])
     if kind == "ctx":
-        return run_driver("drv_runtime", [" ".join(o["commits"]) for o in outcomes], args=["sched"])
+        # ("<t> S <u>", thread t started thread u, is not a step of the model)
+        return run_driver("drv_runtime", [" ".join(c for c in o["commits"] if c.split()[1] != "S") for o in outcomes], args=["sched"])
     if kind == "reg":
         return run_driver("drv_runtime", [" ".join(o["commits"]) for o in outcomes], args=["reg"])
     n = len(scn["threads"])
@@ -1552,6 +1745,130 @@ def scenarios(rng: random.Random, thorough: bool) -> List[Tuple[str, Dict[str, A
     out += graph_scenarios(rng, thorough)
     # (a-lib) after (d), for the same reason
     out += lib_scenarios(rng, thorough)
+    # (a-first) after (a-lib), for the same reason
+    out += first_scenarios(rng, thorough)
+    return out
+
+
+def first_scenarios(rng: random.Random, thorough: bool) -> List[Tuple[str, Dict[str, Any]]]:
+    """(a-first) WHO starts from WHAT: threads that have never touched the runtime make their first request /
+    handle() / current_runtime() / inherit() / __enter__ / logging.disabled() call before, while and after the
+    process's MAIN thread (scn["main"], model thread 0, a scheduled participant like the workers) and / or the
+    thread that started them is inside one or several handler contexts.  ["S", t] starts thread t from inside the
+    scenario (by the main thread or by a worker, inside or outside a context of its own); ["set", e] / ["wait", e]
+    order the phases where the scenario is directed ("pool-style" workers: the tasks of one reused thread are
+    separated by waits, as a pool worker waits for its queue); the other scenarios leave the order to the schedule
+    exploration.  One scenario runs real concurrent.futures pools, strictly sequentially.  T0 has a default
+    (tag 1), T1 has none (an unhandled request fails with TypeError).  The directed scenarios always run; the seed
+    adds random programs (quick 1, thorough 4)."""
+    T0, T1, L, C = 0, 1, LOG_T, CEX_T
+    out: List[Tuple[str, Dict[str, Any]]] = []
+
+    def add(name, main, threads, setup=(), **kw):
+        out.append((f"a-first {name}", {"kind": "ctx", "first": True, "setup": [["g", T0, 1]] + list(setup),
+                                        "main": main, "threads": threads, **kw}))
+
+    add("pool-style: a reused worker's first task while the main thread is inside two nested handle() blocks, its next "
+        "after main left; another worker's first task after main left",
+        [["h", 1, [[T0, 2]]], ["W", 1, [["r", T0], ["h", 2, [[T1, 6]]], ["W", 2, [["set", 1], ["wait", 2], ["r", T1]]], ["r", T0]]],
+         ["set", 3], ["wait", 4], ["r", T0], ["r", T1]],
+        [[["wait", 1], ["r", T0], ["r", T1], ["p"], ["set", 2], ["wait", 3], ["r", T0], ["r", T1], ["p"], ["set", 4]],
+         [["wait", 3], ["r", T0], ["r", T1], ["p"]]])
+    add("first request before the main thread entered, later ones while it is inside and after it left; a worker "
+        "that inherit()s from the main thread",
+        [["wait", 1], ["h", 1, [[T0, 2], [T1, 6]]], ["W", 1, [["r", T0], ["set", 2], ["wait", 3]]], ["set", 4], ["r", T0]],
+        [[["r", T0], ["p"], ["set", 1], ["wait", 2], ["r", T0], ["r", T1], ["set", 3], ["wait", 4], ["r", T0]],
+         [["wait", 2], ["i", 0], ["r", T0], ["r", T1], ["wait", 4], ["r", T0], ["p"]]])
+    add("first call current_runtime() / handle() against the main thread's handle() block (free order)",
+        [["h", 1, [[T0, 2]]], ["W", 1, [["r", T0]]], ["r", T0]],
+        [[["c", 5], ["r", T0], ["W", 5, [["r", T0]]], ["p"]],
+         [["h", 6, [[T1, 7]]], ["W", 6, [["r", T0], ["r", T1]]], ["r", T0]]])
+    add("first call __enter__ of the Runtime object the main thread is inside / inherit(main) (free order)",
+        [["W", 0, [["W", 1, [["r", T0], ["r", T1]]], ["r", T0]]], ["r", T0]],
+        [[["W", 0, [["r", T0], ["r", T1]]], ["r", T0], ["r", T1], ["p"]],
+         [["i", 0], ["r", T0], ["r", T1], ["p"]]],
+        [["n", 0, [[T0, 2]]], ["d", 1, 0, [[T1, 6]]]])
+    add("main thread inside logging.disabled() and cache.disabled(): first LogRequest / CacheExistsRequest / "
+        "logging.disabled() of fresh threads",
+        [["hl", 1], ["W", 1, [["hd", 2], ["W", 2, [["r", L], ["r", C], ["set", 1], ["wait", 2]]], ["r", L]]], ["set", 3], ["r", L], ["r", C]],
+        [[["wait", 1], ["r", L], ["r", C], ["r", T0], ["set", 2], ["wait", 3], ["r", L], ["r", C]],
+         [["wait", 1], ["hl", 5], ["W", 5, [["r", L], ["r", C]]], ["r", L], ["r", C]]],
+        [["g", T1, 5], ["g", L, 2], ["g", C, 3]], lib=True)
+    add("threads started by the main thread while it is inside handle(); an inheriting one starts a third",
+        [["h", 1, [[T0, 2], [T1, 6]]], ["W", 1, [["S", 1], ["r", T0], ["S", 2]]], ["r", T0]],
+        [[["r", T0], ["r", T1], ["p"]],
+         [["i", 0], ["r", T0], ["S", 3], ["r", T1]],
+         [["r", T0], ["r", T1], ["p"]]])
+    add("a thread started by a worker that is inside its own handle() block, main inside another",
+        [["h", 2, [[T0, 2]]], ["W", 2, [["r", T0]]], ["r", T0]],
+        [[["h", 1, [[T0, 3], [T1, 7]]], ["W", 1, [["S", 2], ["r", T0]]], ["r", T1]],
+         [["r", T0], ["r", T1], ["p"], ["i", 1], ["r", T0], ["r", T1]]])
+    add("real ThreadPoolExecutor workers (one reused thread each): first task before / while / after the main thread "
+        "is inside handle() blocks, inherit() in a later task",
+        [["T", 1], ["h", 1, [[T0, 2], [T1, 6]]],
+         ["W", 1, [["T", 1], ["T", 2], ["h", 2, [[T0, 3]]], ["W", 2, [["T", 3], ["T", 2]]], ["T", 3], ["r", T0]]],
+         ["T", 1], ["T", 2], ["T", 3], ["T", 4], ["r", T0]],
+        [[["task", [["r", T0], ["p"]]], ["task", [["r", T0], ["r", T1]]], ["task", [["r", T0], ["p"]]]],
+         [["task", [["r", T0], ["r", T1], ["p"]]], ["task", [["i", 0], ["r", T0], ["r", T1]]], ["task", [["r", T0], ["p"]]]],
+         [["task", [["c", 7], ["r", T0]]], ["task", [["W", 7, [["r", T0]]], ["r", T1]]], ["task", [["r", T0], ["p"]]]],
+         [["task", [["r", T0], ["r", T1], ["p"]]]]],
+        pool=True)
+
+    for r in range(4 if thorough else 1):
+        nw = rng.choice([2, 2, 3])
+        tag = [70]
+
+        def hs():
+            tag[0] += 1
+            pairs = [[rng.choice([T0, T1]), tag[0]]]
+            if rng.random() < 0.4:
+                tag[0] += 1
+                pairs.append([T0 + T1 - pairs[0][0], tag[0]])
+            return pairs
+
+        def reqs():
+            return [["r", rng.choice([T0, T0, T1])] for _ in range(rng.randint(1, 2))]
+        # workers: a first call of a random kind, then requests; the last one may be started from inside the scenario
+        threads: List[Any] = []
+        for t in range(1, nw + 1):
+            x = 100 * t
+            first = rng.choice(["r", "r", "h", "c", "i", "W", "p"])
+            if first == "h":
+                prog = [["h", x, hs()], ["W", x, reqs()]]
+            elif first == "c":
+                prog = [["c", x]] + reqs() + [["W", x, reqs()]]
+            elif first == "i":
+                prog = [["i", 0]]
+            elif first == "W":
+                prog = [["W", rng.choice([0, 1]), reqs()]]
+            elif first == "p":
+                prog = [["p"]]
+            else:
+                prog = []
+            threads.append(prog + reqs() + [["p"], ["r", T0]])
+        started_inside = nw if rng.random() < 0.7 else None
+        spawner = rng.choice([0] + list(range(1, nw))) if started_inside else None
+        # main: one or two nested blocks (its own handle() or the setup's Runtime objects), requests in between
+        inner = reqs()
+        if rng.random() < 0.5:
+            inner = [["h", 12, hs()], ["W", 12, reqs()]] + inner
+        if spawner == 0:
+            inner.insert(rng.randint(0, len(inner)), ["S", started_inside])
+        if rng.random() < 0.5:
+            main = [["h", 11, hs()], ["W", 11, inner]] + reqs()
+        else:
+            main = [["W", rng.choice([0, 1]), inner]] + reqs()
+        if rng.random() < 0.3:
+            main = reqs() + main
+        if spawner:
+            prog = threads[spawner - 1]
+            pos = rng.randint(0, len(prog))
+            w = [it for it in prog[:pos] if it[0] == "W"]
+            if w and rng.random() < 0.6:
+                w[-1][2].insert(rng.randint(0, len(w[-1][2])), ["S", started_inside])
+            else:
+                prog.insert(pos, ["S", started_inside])
+        add(f"random-{r}", main, threads, [["n", 0, [[T0, 2]]], ["d", 1, 0, [[T1, 3]]]])
     return out
 
 
@@ -1706,6 +2023,22 @@ def phases(kind: str, thorough: bool, scn: Optional[Dict[str, Any]] = None) -> L
     graph scenarios: caps[c] = schedules with c preemptions per exploration depth (c = 0: the free choices - which
     thread starts, which one goes on when a thread has finished), budget = schedules per phase"""
     pb = 3 if thorough else 2
+    if kind == "ctx" and scn is not None and scn.get("pool"):
+        return [{"gran": "op", "bound": 0, "cap": 1, "random": 0}]       # strictly sequential: one execution
+    if kind == "ctx" and scn is not None and scn.get("first"):
+        # one reservoir per number of preemptions, as in (a-lib); c = 0 are the free choices (who starts, who goes on
+        # when a thread finishes or waits for an event)
+        if thorough:
+            op = {"caps": [60, 600, 600, 600], "budget": 2000, "random": 0}
+            line = {"caps": [60, 1500, 400, 200], "budget": 2500, "random": 100}
+            opcode = {"caps": [60, 1500, 300, 150], "budget": 2200, "random": 100}
+        else:
+            op = {"caps": [30, 130, 30], "budget": 180, "random": 0}
+            line = {"caps": [30, 180, 20], "budget": 230, "random": 10}
+            opcode = {"caps": [30, 80, 10], "budget": 110, "random": 5}
+        return [{"gran": "op", "bound": pb, "cap": 0, **op},
+                {"gran": "line", "bound": pb, "cap": 0, **line},
+                {"gran": "opcode", "bound": pb, "cap": 0, **opcode}]
     if kind == "ctx" and scn is not None and scn.get("lib"):
         # one reservoir per number of preemptions, as in (d): all single-preemption schedules first
         if thorough:
@@ -1787,8 +2120,15 @@ def _explore(ctx: Ctx, thorough: bool, scns, jobs, background) -> Exploration:
     graph_cov: Dict[str, Any] = {}
     lib_cov: Dict[str, Any] = {"scenarios": 0, "executions": 0, "distinct_outcomes": 0, "traced_files": [],
                                "helper_calls_in_programs": {}, "executions_by_level": {}}
+    first_cov: Dict[str, Any] = {"scenarios": 0, "scenarios_with_real_pool_threads": 0, "executions": 0, "distinct_outcomes": 0,
+                                 "rule": "counts of distinct outcomes (order of atomic steps, observations), by the first library call "
+                                         "of every non-main thread and the main thread's position at that step / by who started a "
+                                         "thread from where",
+                                 "main_thread_is_a_scheduled_participant": True,
+                                 "first_call_of_a_thread_without_runtime": {}, "threads_started_inside_the_scenario": {},
+                                 "executions_by_level": {}}
     for idx, ((name, scn), job) in enumerate(zip(scns, jobs)):
-        kname = "ctx-lib" if scn.get("lib") else scn["kind"]
+        kname = "ctx-first" if scn.get("first") else "ctx-lib" if scn.get("lib") else scn["kind"]
         kinds[kname] = kinds.get(kname, 0) + 1
         try:
             res = background[idx].result()[0]
@@ -1810,7 +2150,16 @@ def _explore(ctx: Ctx, thorough: bool, scns, jobs, background) -> Exploration:
             g["executions"] += st["executions"]
             g["traced_files"] = outs[0]["outcome"]["traced"]
             g["shared_node_classes"] = outs[0]["outcome"]["shared_node_classes"]
-        if scn.get("lib") and outs:
+        if scn.get("first") and outs:
+            first_cov["scenarios"] += 1
+            first_cov["scenarios_with_real_pool_threads"] += 1 if scn.get("pool") else 0
+            first_cov["executions"] += st["executions"]
+            first_cov["distinct_outcomes"] += len(outs)
+            for o in outs:
+                first_touch_stats(o["outcome"], first_cov)
+            for lv, cnt in st["by_level"].items():
+                first_cov["executions_by_level"][lv] = first_cov["executions_by_level"].get(lv, 0) + cnt
+        if scn.get("lib") and not scn.get("first") and outs:
             lib_cov["scenarios"] += 1
             lib_cov["executions"] += st["executions"]
             lib_cov["distinct_outcomes"] += len(outs)
@@ -1860,9 +2209,12 @@ def _explore(ctx: Ctx, thorough: bool, scns, jobs, background) -> Exploration:
                            "c cached dataset (cache)": kinds.get("cache", 0),
                            "a-lib handler contexts through the library's own context managers / derived-runtime helpers "
                            "(ctx, lib)": kinds.get("ctx-lib", 0),
-                           "d cached dataset over shared user-built nodes (graph)": kinds.get("graph", 0)},
+                           "d cached dataset over shared user-built nodes (graph)": kinds.get("graph", 0),
+                           "a-first handler contexts: first call of threads without a runtime vs the main / starting thread's "
+                           "contexts (ctx, first)": kinds.get("ctx-first", 0)},
         "shared_node_family": graph_cov,
         "library_context_manager_family": lib_cov,
+        "first_touch_family": first_cov,
     }
     return Exploration(findings, cov)
 
